@@ -4,6 +4,8 @@
 (*           and (WithReplace) Replace(n, k) of a nested group by a fresh one;     *)
 (*           valuation restricted to the fields MCFields, value tokens MCValues;   *)
 (*  "window" one state per (obstacle descriptor, begin, end); Widen moves end;     *)
+(*  "frames" one state per (descriptor, window); Advance shifts the window by one  *)
+(*           step (the video loop);                                                *)
 (*  "lights" one state per (light configuration, time_begin); Tick moves time;     *)
 (*  "total"  one state per (archetype, window) - generation only.                  *)
 (* The tree model is implementation-shaped in one respect: DEV_CachedSubParams     *)
@@ -43,7 +45,9 @@ ImplSet(vl, st, act) ==
                                THEN act.v ELSE vl[p]]
 
 Init == /\ val = (IF Mode = "tree" THEN Val0 ELSE <<>>) /\ hist = <<>> /\ stale = {}
-        /\ IF Mode = "window" THEN o \in Descriptors /\ b \in 0..WMax /\ e \in b..WMax ELSE o = NoDesc /\ b = 0 /\ e = 0
+        /\ IF Mode = "window" THEN o \in Descriptors /\ b \in 0..WMax /\ e \in b..WMax
+           ELSE IF Mode = "frames" THEN o \in Descriptors /\ b \in 0..1 /\ e \in {b, b + 2}
+           ELSE o = NoDesc /\ b = 0 /\ e = 0
         /\ IF Mode = "lights" THEN lc \in LightConfigs /\ lt = 0 ELSE lc = NoLight /\ lt = 0
         /\ IF Mode = "total" THEN a \in Archetypes /\ w \in Windows ELSE a = "empty" /\ w = "default"
 
@@ -57,9 +61,11 @@ DoReplace == /\ Mode = "tree" /\ WithReplace /\ Len(hist) < MaxSets
              /\ UNCHANGED <<o, b, e, lc, lt, a, w>>
 Widen == /\ Mode = "window" /\ e < WMax /\ e' = e + 1
          /\ UNCHANGED <<val, hist, stale, o, b, lc, lt, a, w>>
+Advance == /\ Mode = "frames" /\ e < TMax /\ b' = b + 1 /\ e' = e + 1
+           /\ UNCHANGED <<val, hist, stale, o, lc, lt, a, w>>
 Tick  == /\ Mode = "lights" /\ lt < TMax /\ lt' = lt + 1
          /\ UNCHANGED <<val, hist, stale, o, b, e, lc, a, w>>
-Next == DoSet \/ DoReplace \/ Widen \/ Tick
+Next == DoSet \/ DoReplace \/ Widen \/ Advance \/ Tick
 Spec == Init /\ [][Next]_vars
 
 (* ------------------------------ laws, part (1) ------------------------------ *)
@@ -123,6 +129,15 @@ InvLanelets     == Mode = "window" => \A ids \in SUBSET {101, 102, 999} :
                        /\ LaneletsExpected({101, 102}, 1, ids) \subseteq {101, 102}
                        /\ LaneletsExpected({101, 102}, 1, ids) = ids \ {999}
 
+(* ------------------------------ laws, part (2c) ----------------------------- *)
+(* what is visible after a round is a function of that round's window only; shapes of steps before the new begin are
+   ghosts and must be gone; for an obstacle that moves there is a ghost in some round (the dimension discriminates) *)
+PropNoGhost      == [][Mode = "frames" => /\ \A t \in DrawnMay(o, b', e') : t >= b'
+                                          /\ Ghosts(o, b, e) \cap DrawnMay(o, b', e') = {}
+                                          /\ FrameWindow(b, e, 1) = <<b', e'>>]_vars
+InvGhostExists   == (Mode = "frames" /\ ~TimeInvariant(o) /\ HasOcc(o, b)) => b \in Ghosts(o, b, e)
+InvStaticNoGhost == (Mode = "frames" /\ TimeInvariant(o)) => {Col(o, t) : t \in DrawnMust(o, b, e)} = {0}
+
 (* ------------------------------ laws, part (2b) ----------------------------- *)
 InvLightTotal   == Mode = "lights" => LightShown(lc, lt) \in LightColors /\ ValidLight(lc)
 InvLightOff     == (Mode = "lights" /\ lc.active = 0) => LightShown(lc, lt) = "inactive"
@@ -152,6 +167,7 @@ EmitSlots == (Mode = "tree" /\ hist = <<>>) =>
 EmitWin   == Mode = "window" => PrintT(<<"CASE", ToJson([part |-> "window", desc |-> o, b |-> b, e |-> e,
                                                           must |-> Cardinality(DrawnMust(o, b, e)),
                                                           band |-> Cardinality(DrawnMay(o, b, e) \ DrawnMust(o, b, e))])>>)
+EmitFrames == (Mode = "frames" /\ b <= 1) => PrintT(<<"CASE", ToJson([part |-> "frames", desc |-> o, b |-> b, e |-> e])>>)
 EmitLights == Mode = "lights" => PrintT(<<"CASE", ToJson([part |-> "lights", light |-> lc, t |-> lt])>>)
 EmitTotal == Mode = "total"  => PrintT(<<"CASE", ToJson([part |-> "total", arch |-> a, win |-> w, b |-> WindowOf(w)[1], e |-> WindowOf(w)[2]])>>)
 =================================================================================
